@@ -4,7 +4,7 @@
    rank of the first score-minimal p-mer of the k-mer x: a function of x alone.  Constants msp_* are pinned from
    the source (currently msp_assert_shift = 32, msp_len_bits = 16, msp_bucket_bits = 32). *)
 From Coq Require Import NArith List Bool Arith.
-From DBG Require Import Gen.SourceConsts Spec.Dna Spec.ScanSpec Algo.Scan Algo.Msp Check.ScanCheck Proofs.ScanProofs Proofs.MspProofs Proofs.ScanCheckProofs.
+From DBG Require Import Gen.SourceConsts Spec.Dna Spec.ScanSpec Algo.Scan Algo.Msp Check.ScanCheck Proofs.ScanProofs Proofs.MspProofs Proofs.ScanCheckProofs Packed.KmerModel Proofs.ScoreBridge.
 Import ListNotations.
 Open Scope nat_scope.
 
@@ -71,6 +71,21 @@ Proof. vm_compute. reflexivity. Qed.
 Example C08_nonvacuous_rc :
   shard_of (msp_score 2 None true) 2 [0;1;2;3;3]%N = shard_of (msp_score 2 None true) 2 (rc [0;1;2;3;3]%N).
 Proof. vm_compute. reflexivity. Qed.
+
+(* Packed bridge: the score closure of msp_sequence and the bucket `min_rc().to_u64()`, computed on the PACKED p-mer with the
+   packed operations (to_u64, rc, min_rc: tied to the code under C10), equal msp_score / bucket_of of the decoded p-mer, for
+   every shipped configuration of width <= 32, every well-formed storage value and every table. *)
+Theorem C08_packed_msp_score : forall c perm rcmode s, In c shipped -> wf (kK c) s -> kK c <= 32 ->
+  packed_msp_score c perm rcmode s = Some (msp_score (kK c) perm rcmode (decode (kK c) s)).
+Proof. exact packed_msp_score_spec. Qed.
+Theorem C08_packed_bucket : forall c s, In c shipped -> wf (kK c) s -> kK c <= 32 ->
+  packed_bucket c s = Some (bucket_of (decode (kK c) s)).
+Proof. exact packed_bucket_spec. Qed.
+Example C08_packed_bridge_nonvacuous :
+  packed_msp_score (mkc 16 8) None true 27%N = Some 27%N.
+Proof. vm_compute. reflexivity. Qed.
+Print Assumptions C08_packed_msp_score.
+Print Assumptions C08_packed_bucket.
 
 Print Assumptions C08_piece_exact.
 Print Assumptions C08_bucket_pure.
